@@ -22,6 +22,13 @@ class Other:
     pass
 
 
+class CallableDep(Dep):
+    """A robot object that happens to be callable (lookup table, filter, ...)."""
+
+    def __call__(self, x):
+        return x
+
+
 KINDS = ["instance", "subclass", "wrong", "none", "zero", "empty"]
 
 
@@ -114,7 +121,8 @@ def path_ctor(c, job):
         c.prove("C08.unit non-type-annotation-is-a-type-error", ok, info=dict(hint=repr(bad)))
 
 
-RELS = ["class-attr", "createObjects", "prefixed-only", "both", "absent", "wrong-type", "subclass", "none-then-prefixed", "none-only"]
+RELS = ["class-attr", "createObjects", "prefixed-only", "both", "absent", "wrong-type", "subclass", "none-then-prefixed", "none-only",
+        "callable-object"]
 
 
 def path_robot(c, job):
@@ -154,6 +162,8 @@ def path_robot(c, job):
         robot_dep = SubDep()
     if rel == "wrong-type":
         robot_dep = Other()
+    if rel == "callable-object":
+        robot_dep = CallableDep()
 
     class CompA:
         dep: Dep
@@ -205,7 +215,7 @@ def path_robot(c, job):
     ann = {"c1": A, "c2": CompB} if order == 0 else {"c2": CompB, "c1": A}
     body = {"__annotations__": ann}
     extra_obj = Other()
-    if rel in ("class-attr", "both", "subclass", "wrong-type"):
+    if rel in ("class-attr", "both", "subclass", "wrong-type", "callable-object"):
         body["dep"] = robot_dep
     if rel in ("none-then-prefixed", "none-only"):
         body["dep"] = None
@@ -235,7 +245,7 @@ def path_robot(c, job):
     c.summary = dict(rel=rel, order=order, ctor=ctor, inherit=inherit, out=out)
     dep_ok = rel not in ("absent", "wrong-type", "none-only")
     # with ctor injection c2 needs 'dep' too (plain name or c2_dep); prefixed-only / none-then-prefixed only provide c1_dep
-    ctor_ok = ctor == 0 or (ctor == 1 and rel in ("class-attr", "createObjects", "both", "subclass"))
+    ctor_ok = ctor == 0 or (ctor == 1 and rel in ("class-attr", "createObjects", "both", "subclass", "callable-object"))
     if not (dep_ok and ctor_ok):
         c.reach("startup-fails")
         c.prove("C08.robot missing-or-mistyped-dependency-fails-at-startup", out == "inject-error", info=dict(rel=rel, ctor=ctor, out=out))
@@ -266,12 +276,84 @@ def path_robot(c, job):
             info=dict(nsetup=len(log)))
 
 
+def path_twins(c, job):
+    """Two components of the same class whose instances differ in what __init__ already set."""
+    import magicbot
+    import ntcore
+    import wpilib
+    from magicbot import MagicRobot
+
+    class E:
+        ds_attached = True
+
+        def fms_attached(self):
+            return False
+
+        def now_us(self):
+            return 0
+
+        def now_s(self):
+            return 0.0
+
+        def sd_get_string(self, k, d):
+            return d
+
+    wpilib.ENV = E()
+    ntcore.reset()
+    wpilib.SmartDashboard.data.clear()
+    lcm.set_auto_pkg(False)
+    PRESET, shared = Dep(), Dep()
+    left_presets = bool(c.boolean("left_presets"))
+    right_presets = bool(c.boolean("right_presets"))
+    nthird = c.choose("third_instance", 2)
+
+    class Wheel:
+        scale: Dep
+        gain: int
+
+        def __init__(self, presets: bool):
+            if presets:
+                self.scale = PRESET
+
+        def execute(self):
+            pass
+
+    ann = {"left": Wheel, "right": Wheel}
+    if nthird:
+        ann["spare"] = Wheel
+    body = {"__annotations__": ann}
+
+    def createObjects(self):
+        self.scale = shared
+        self.gain = 0
+        self.left_presets = left_presets
+        self.right_presets = right_presets
+        self.spare_presets = False
+
+    body["createObjects"] = createObjects
+    r = type("Robot", (MagicRobot,), body)()
+    try:
+        r.robotInit()
+        out = "ok"
+    except Exception as e:
+        out = "error:" + repr(e)[:100]
+    c.summary = dict(kind="twins", left=left_presets, right=right_presets, out=out)
+    c.reach("twins")
+    c.prove("C08.robot startup-succeeds", out == "ok", info=dict(out=out))
+    if out != "ok":
+        return
+    for name, pre in (("left", left_presets), ("right", right_presets)) + ((("spare", False),) if nthird else ()):
+        comp = getattr(r, name)
+        c.prove("C08.robot same-class-instances-injected-individually", comp.scale is (PRESET if pre else shared) and comp.gain == 0,
+                info=dict(component=name, preset=pre))
+
+
 class C08(Spec):
     id = "C08"
     design_ref = "DESIGN.md §7 C08"
     real_capable = False
     clauses = ["C08.unit private", "C08.unit absent", "C08.unit mistyped", "C08.unit delivers", "C08.unit ctor", "C08.robot missing",
-               "C08.robot attribute", "C08.robot components", "C08.robot preset", "C08.robot injected-before", "C08.robot ctor", "C08.robot inherited"]
+               "C08.robot attribute", "C08.robot components", "C08.robot preset", "C08.robot injected-before", "C08.robot ctor", "C08.robot inherited", "C08.robot same-class"]
     stubs = ["wpilib/hal/ntcore stubs for robotInit() (SendableChooser, SmartDashboard, NetworkTables)", "no autonomous package on sys.path (the selector tolerates that)"]
     assumptions = ["presence flags are symbolic booleans decided through the solver; value kinds and robot definitions are enumerated programs"]
     outside = ["name collisions between '<component>_<attr>' of one component and a plain attribute requested by another (CrossHair second opinion of DESIGN §7(c) not built)",
@@ -279,7 +361,7 @@ class C08(Spec):
 
     def jobs(self, tier):
         j = [dict(kind="unit", ann=a, private=p) for a in ("Dep", "int", "str", "list[int]") for p in (False, True)]
-        j += [dict(kind="ctor"), dict(kind="robot")]
+        j += [dict(kind="ctor"), dict(kind="robot"), dict(kind="twins")]
         return j
 
     def bounds(self, tier):
@@ -288,10 +370,10 @@ class C08(Spec):
 
     def reach_required(self, tier):
         return ["untouched", "prefixed-lookup", "absent", "mistyped", "delivered", "falsy-delivered", "ctor-private", "startup-fails", "startup-ok",
-                "inherited-annotations", "ctor-injection"]
+                "inherited-annotations", "ctor-injection", "twins"]
 
     def path_fn(self, c, job):
-        return dict(unit=path_unit, ctor=path_ctor, robot=path_robot)[job["kind"]](c, job)
+        return dict(unit=path_unit, ctor=path_ctor, robot=path_robot, twins=path_twins)[job["kind"]](c, job)
 
     def twin(self, tier):
         def tfn(c, job):
